@@ -8,7 +8,8 @@ import re
 from ..cfg import walk_no_nested
 from ..constfold import Folder, RegexConst, Unknown
 from ..dataflow import origins
-from ..loader import AnalysisError, ConstInfo, site_packages
+from ..decide import Decider, LoopFacts, expand_expr, role_of
+from ..loader import AnalysisError, ConstInfo, FuncInfo, site_packages
 from ..regexlang import Regex, first_word_language, included, product, shortest_word
 from ..report import Ctx
 from .common import direct_guards, norm, where
@@ -168,39 +169,56 @@ def check_escape_site(ctx: Ctx) -> None:
     flow = prog.flow(wl)
     sites = [(n, c) for n, c in flow.all_calls() if prog.resolve_call(wl, c) == [esc]]
     ctx.require("R-ESCAPE-SITE", "call to markdown_escape_word in wrap_paragraph_lines", len(sites), 1)
-    for n, c in sites:
-        guards = direct_guards(prog, wl, n)
-        leaves_ok = False
-        for b, lab, org in guards:
-            txt = norm(b.ast)
-            names = {x.id for x in ast.walk(b.ast) if isinstance(x, ast.Name)}
-            if lab == "T" and "is_markdown" in names and isinstance(b.ast, ast.BoolOp) and isinstance(b.ast.op, ast.And):
-                # is_markdown and not first_line : no further conjunct may narrow it
-                others = [v for v in b.ast.values if not (isinstance(v, ast.Name) and v.id == "is_markdown")]
-                leaves_ok = len(others) == 1 and isinstance(others[0], ast.UnaryOp) and isinstance(others[0].op, ast.Not)
-            elif lab == "T" and txt == "is_markdown":
-                leaves_ok = True
-        ctx.ob("R-ESCAPE-SITE", f"{wl.qual} :: escape guarded by is_markdown and not first line", leaves_ok,
-               "the escaper must run for every continuation line in Markdown mode; guards: "
-               + "; ".join(f"{norm(g[0].ast)}[{g[1]}]" for g in guards), where(wl, c))
-        # argument is the word about to start the new line, result starts the new line
-        arg_org = origins(prog, wl, c.args[0], n) if c.args else frozenset()
-        ctx.ob("R-ESCAPE-SITE", f"{wl.qual} :: escaped value is the loop word",
-               any(o[0] == "iter" for o in arg_org), "the escaper must be applied to the word that starts the new line", where(wl, c))
-    # the new line starts with the escaped word
+    # where a new output line is started: `current_line = [X]` inside the word loop. Under "Markdown mode, a line has already
+    # been emitted" X must be escape(word); without Markdown mode it must be the word. Decided by evaluating the loop body
+    # under those valuations, so that the guard may be spelled as an if, a conditional expression or a named temporary -
+    # and so that an extra conjunct that narrows it shows up as a second possible outcome.
     starts = []
     for n in flow.cfg.nodes:
         if n.kind == "stmt" and isinstance(n.ast, ast.Assign) and isinstance(n.ast.value, ast.List) and len(n.ast.value.elts) == 1 \
                 and isinstance(n.ast.targets[0], ast.Name):
-            e = n.ast.value.elts[0]
-            if isinstance(e, ast.Name):
-                defs = flow.reaching(n, e.id)
-                via_escape = any(isinstance(d.value, ast.Call) and prog.resolve_call(wl, d.value) == [esc] for d in defs)
-                starts.append((n, via_escape))
+            heads = [h for h in flow.cfg.nodes if h.kind == "for" and n in flow.loop_body_nodes(h) and isinstance(h.ast.target, ast.Name)]
+            if heads:
+                starts.append((n, min(heads, key=lambda h: len(flow.loop_body_nodes(h)))))
     ctx.require("R-ESCAPE-SITE", "new-line starts in wrap_paragraph_lines", len(starts), 1)
-    for n, via in starts:
-        ctx.ob("R-ESCAPE-SITE", f"{wl.qual} :: new line starts with the escaped word", via,
-               "the word placed at the start of a wrapped line must be the (possibly) escaped one", where(wl, n))
+    for n, h in starts:
+        facts = LoopFacts(prog, wl, h)
+        word = h.ast.target.id
+
+        def value_leaf(cur: FuncInfo, e: ast.AST, aliases: frozenset):
+            if isinstance(e, ast.Name) and "word" in role_of(e, aliases):
+                return "WORD"
+            if isinstance(e, ast.Call) and len(e.args) == 1 and prog.resolve_call(cur, e) == [esc] and "word" in role_of(e.args[0], aliases):
+                return "ESC(WORD)"
+            return None
+
+        res: dict[str, set] = {}
+        for label, md, later in (("markdown, continuation line", True, True), ("plain text", False, True)):
+            def atom(leaf: ast.AST, aliases: frozenset, md=md, later=later) -> bool | None:
+                if isinstance(leaf, ast.Name):
+                    if "md" in role_of(leaf, aliases):
+                        return md
+                    if leaf.id in facts.latches:
+                        return (not facts.latches[leaf.id]) if later else facts.latches[leaf.id]
+                return None
+
+            dec = Decider(prog, atom, value_leaf=value_leaf)
+            al = frozenset({f"word={word}", "md=is_markdown"})
+            vals: set = set()
+            for be in [x for x, lab in h.succ if lab == "iter"]:
+                for end, env, benv, _outs in dec.walk(wl, be, lambda x, n=n, h=h: x is n or x is h, al):
+                    if end is n:
+                        vals |= dec.ev(wl, n.ast.value.elts[0], env, benv, env.get("__aliases__", al), 0)
+            res[label] = vals
+        ctx.note("new_line_start_values", {k: sorted(map(str, v)) for k, v in res.items()})
+        got = res["markdown, continuation line"]
+        ctx.ob("R-ESCAPE-SITE", f"{wl.qual} :: escape guarded by is_markdown and not first line", got == {"ESC(WORD)"},
+               "the escaper must run for every continuation line in Markdown mode: with is_markdown set and a line already emitted, "
+               f"the word that starts the new line is {sorted(map(str, got))}", where(wl, n))
+        ctx.ob("R-ESCAPE-SITE", f"{wl.qual} :: new line starts with the escaped word", "ESC(WORD)" in got and got <= {"ESC(WORD)", "WORD"},
+               f"the word placed at the start of a wrapped line must be the (possibly) escaped one; it is {sorted(map(str, got))}", where(wl, n))
+        ctx.ob("R-ESCAPE-SITE", f"{wl.qual} :: escaped value is the loop word", res["plain text"] == {"WORD"},
+               f"without Markdown mode the word is placed unchanged; it is {sorted(map(str, res['plain text']))}", where(wl, n))
     # is_markdown reaches wrap_paragraph_lines on both wrapper chains
     for q in ("flowmark.linewrapping.line_wrappers:line_wrap_to_width", "flowmark.linewrapping.line_wrappers:line_wrap_by_sentence"):
         fac = repo.func(q)
@@ -238,7 +256,7 @@ def check_escape_action(ctx: Ctx) -> None:
     for r in flow.cfg.returns():
         v = r.ast.value
         n_ret += 1
-        ok, why = _is_word_plus_backslash(v, p)
+        ok, why = _is_word_plus_backslash(expand_expr(prog, fi, v, r) if v is not None else v, p)
         ctx.ob("R-ESCAPE-ACTION", f"{fi.qual} :: {norm(v)}", ok,
                f"the escaper may only return its argument or the argument with a single backslash inserted ({why})", where(fi, r))
     ctx.require("R-ESCAPE-ACTION", "returns of markdown_escape_word", n_ret, 2)
@@ -246,7 +264,7 @@ def check_escape_action(ctx: Ctx) -> None:
     for r in flow.cfg.returns():
         guards = direct_guards(prog, fi, r)
         if any(lab == "T" for _, lab, _ in guards):
-            has_bs = any(isinstance(c, ast.Constant) and c.value == "\\" for c in ast.walk(r.ast.value))
+            has_bs = any(isinstance(c, ast.Constant) and c.value == "\\" for c in ast.walk(expand_expr(prog, fi, r.ast.value, r)))
             ctx.ob("R-ESCAPE-ACTION", f"{fi.qual} :: matched word gets a backslash: {norm(r.ast.value)}", has_bs,
                    "a word recognised as a block marker must be returned with a backslash", where(fi, r))
 
